@@ -232,6 +232,8 @@ func (t *Transaction) DecodeBinary(br *io.BinReader) {
 	t.decodeBinaryNoSize(br, nil)
 
 	if br.Err == nil {
+		// The receiver can hold the size of a transaction decoded before.
+		t.size = 0
 		_ = t.Size()
 	}
 }
